@@ -1,4 +1,4 @@
-\* the reducers with the extremum seeds of the code as found (F6): ModuleDefinition is expected to FAIL
+\* the reducers with the extremum seeds of the code as found (F6): ModuleDefinition ModuleAltDefinition is expected to FAIL
 SPECIFICATION Spec
 CONSTANTS
   TypeCodes <- AllBytes
@@ -14,6 +14,6 @@ CONSTANTS
   ProdScales <- AllProdScales
   FirstSeed = FALSE
   FreshMaps = TRUE
-INVARIANTS FactoryIndependent RegOneToOne UnknownIsError NameRoundTrip ScalarInRange ScalarMonotone ScalarShape ModuleDefinition
+INVARIANTS FactoryIndependent RegOneToOne UnknownIsError NameRoundTrip ScalarInRange ScalarMonotone ScalarShape ModuleDefinition ModuleAltDefinition
 PROPERTY FactoryStepLaw
 CHECK_DEADLOCK FALSE
